@@ -1528,16 +1528,19 @@ class HealSparseMap(object):
                     raise ValueError("weights must be a HealSparseMap.")
                 if weights.is_rec_array or weights.is_wide_mask_map or weights.is_integer_map:
                     raise ValueError("weights must be a floating-point map.")
+                valid_pixels = self.valid_pixels
                 bad_map = ((weights.nside_sparse != self.nside_sparse) or
                            (weights.nside_coverage != self.nside_coverage) or
-                           (not np.array_equal(weights.valid_pixels, self.valid_pixels)))
+                           (not np.array_equal(np.sort(weights.valid_pixels), np.sort(valid_pixels))))
                 if bad_map:
                     raise ValueError('weights dimensions must be the same as this map.')
 
-                weight_values = weights._sparse_map
-                # Set to zero weight those pixels that are not observed
-                # This is valid for all types of maps because they share the same valid_pixels.
-                weight_values[weight_values == weights._sentinel] = 0.0
+                # Weights in the storage layout of this map (the weight map may have its
+                # blocks in a different order), with zero weight for unobserved pixels.
+                # This does not touch the weight map itself.
+                weight_values = np.zeros(len(self._sparse_map), dtype=weights.dtype)
+                weight_indices = valid_pixels + self._cov_map[self._cov_map.cov_pixels(valid_pixels)]
+                weight_values[weight_indices] = weights.get_values_pix(valid_pixels)
                 weight_values = weight_values.reshape((npop_pix + 1,
                                                        (nside_out//self.nside_coverage)**2, -1))
         elif reduction == 'wmean':
